@@ -22,10 +22,12 @@ EXTENDS Integers, Sequences, FiniteSets, TLC, Json
 
 PoseCls  == {"SO2", "SE2", "SO3", "SE3"}
 TwistCls == {"Twist2", "Twist3"}
-Cls      == PoseCls \cup TwistCls \cup {"UnitQuaternion"}
+\* "UnitQuaternion(R)": a unit quaternion constructed from a 3x3 ROTATION MATRIX - the items are matrices and have the
+\* kinds of SO3 items (the constructor must validate the matrix exactly as SO3 does)
+Cls      == PoseCls \cup TwistCls \cup {"UnitQuaternion", "UnitQuaternion(R)"}
 
 FarKinds(c) ==
-  CASE c \in {"SO2", "SO3"} -> {"nonorth", "scaled", "reflection"}
+  CASE c \in {"SO2", "SO3", "UnitQuaternion(R)"} -> {"nonorth", "scaled", "reflection"}
     [] c \in {"SE2", "SE3"} -> {"nonorth", "scaled", "reflection", "lastrow"}
     [] c \in TwistCls       -> {"diag", "notskew", "bottom"}
     [] c = "UnitQuaternion" -> {"zero"}
@@ -74,6 +76,7 @@ KindSeqs(c, n) == [1..n -> Kinds(c)]
 Construct(c, form, ks) ==
   /\ call.op = "none"
   /\ (form = "bare" => Len(ks) = 1)
+  /\ (c = "UnitQuaternion(R)" => form = "bare")        \* a list of matrices is not a documented form
   /\ call' = [op |-> "construct", cls |-> c, form |-> form, kinds |-> ks]
   /\ expect' = Outcome(c, ks)
 
@@ -82,7 +85,7 @@ Construct(c, form, ks) ==
 OtherCls == Cls \cup {"Quaternion", "Plucker"}
 ConstructFromObject(c, o, form, n) ==        \* n: number of values the supplied object holds
   /\ call.op = "none"
-  /\ c # o
+  /\ c # o /\ c # "UnitQuaternion(R)" /\ o # "UnitQuaternion(R)"
   /\ form \in {"bare", "list"}
   /\ call' = [op |-> "construct-from-object", cls |-> c, other |-> o, form |-> form, len |-> n]
   /\ expect' = "reject-or-member"
@@ -92,7 +95,7 @@ ConstructFromObject(c, o, form, n) ==        \* n: number of values the supplied
 Mutators == {"append", "insert", "extend", "setitem"}
 MutateWithObject(c, o, m, n) ==
   /\ call.op = "none"
-  /\ c # o
+  /\ c # o /\ c # "UnitQuaternion(R)" /\ o # "UnitQuaternion(R)"
   /\ call' = [op |-> "mutate-with-object", cls |-> c, other |-> o, mutator |-> m, len |-> n]
   /\ expect' = "reject-or-member"
 
